@@ -35,17 +35,19 @@ FUNCTIONS = [
     "unified_planning.model.types:is_compatible_type",
     "unified_planning.model.expression:ExpressionManager.create_node",
 ]
-BOUNDS = ("layer 1: expression trees of <= 5 nodes (binary + - * /, n-ary + * with 3/4 operands; thorough: also 6-node "
-          "mixes); sym shards: operators + - *, leaves = int fluent with bounds (s,s'), (s,None), (None,s), (None,None), real "
-          "fluent with bounds (s,s') (integer-valued; halves in the thorough tier), int constant s, real constant s "
-          "-- every s an UNBOUNDED solver integer; conc shards: operators + - * /, leaves from a pool of 15 int types, "
-          "13 real types (bounds in {None,-4,-3,-2,-3/2,0,1/2,2,3}) and 7 constants; quick covers all 3-node and 4-node "
-          "trees and the 5-node trees over a reduced leaf pool; "
-          "layer 2: Div(l, r), Div(x:[a,b], r), Div(x:[a,None]/[None,b], r) with l, r, a, b 64-bit integers of magnitude "
-          "<= 2^53 (plus a shard with magnitude < 1000); layer 3: 14 x 14 ordered operand pairs")
-OUTSIDE = ("larger trees; real bounds/constants with symbolic denominators; symbolic real bounds next to unbounded "
-           "operands (concrete there); constants whose magnitude exceeds the float range next to unbounded operands "
-           "(the checker raises OverflowError there: see note); timing arithmetic; operands above 2^53 in layer 2")
+BOUNDS = ("layer 1: expression trees of <= 5 nodes (binary + - * /, n-ary + * with 3 / 4 operands; thorough: also 6-node mixes). "
+          "sym shards: leaves = int fluent with bounds (s,s'), (s,None), (None,s), (None,None), real fluent with bounds (s,s') "
+          "(integer-valued; halves in the thorough tier), int constant s, real constant s -- every s an UNBOUNDED solver integer; "
+          "every 1-node and 3-node tree over every leaf-kind combination; 4/5-node trees over reduced leaf pools in the quick tier; "
+          "divisors in sym shards: half-/un-bounded or non-point bounded fluents and concrete constants -4,-3,-1,1,2,7. "
+          "conc shards: leaves from a pool of 15 int types, 13 real types (bounds in {None,-4,-3,-2,-3/2,0,1/2,2,3}) and 7 "
+          "constants; every 3-node tree over the full pool, 4/5-node trees over a 7-kind pool (quick) / 16-kind pool (thorough). "
+          "layer 1c: binary trees over constants / bounds of magnitude 2^1100. "
+          "layer 2: Div(l, r), Div(x:[a,b], r), Div(x:[a,None] / [None,b], r), int and real dividends, with l, r, a, b integers of "
+          "magnitude <= 2^53 (plus a shard with magnitude < 1000). layer 3: 14 x 14 ordered operand pairs")
+OUTSIDE = ("larger trees; real bounds / constants with symbolic denominators; symbolic real bounds next to unbounded operands "
+           "(concrete there); symbolic constant divisors in layer 1 (all values are covered by layer 2 for Div(l, r) only); "
+           "timing arithmetic; operands above 2^53 in layer 2 when walk_div divides floats")
 ASSUMPTIONS = [
     "sym shards: CrossHair's float model is pinned to its real-based one; the type checker only ever mixes the floats "
     "+inf/-inf (and 0*inf = nan) with the integer bounds, for which Python's int/float comparison and arithmetic are "
@@ -388,6 +390,50 @@ def h_exact(ctx):
 
 
 # ---------------------------------------------------------------------------------------------------------------
+# layer 1c: constants and bounds beyond the float range (the checker mixes float infinities with exact bounds)
+# ---------------------------------------------------------------------------------------------------------------
+HUGE = 2 ** 1100
+HUGE_KINDS = ["n", "l", "u", "b", "r", "hb", "H", "-H", "RH", "c3", "q"]
+
+
+def _huge_leaf(env, i, kind):
+    import unified_planning as up
+
+    em, tm = env.expression_manager, env.type_manager
+    F = lambda t: em.FluentExp(up.model.Fluent(f"x{i}", t, environment=env))  # noqa: E731
+    return {
+        "n": lambda: F(tm.IntType()), "l": lambda: F(tm.IntType(-2, None)), "u": lambda: F(tm.IntType(None, 5)),
+        "b": lambda: F(tm.IntType(-3, 4)), "r": lambda: F(tm.RealType()), "hb": lambda: F(tm.IntType(-HUGE, HUGE)),
+        "H": lambda: em.Int(HUGE), "-H": lambda: em.Int(-HUGE), "RH": lambda: em.Real(Fraction(HUGE, 3)),
+        "c3": lambda: em.Int(3), "q": lambda: em.Real(Fraction(-1, 2)),
+    }[kind]()
+
+
+def h_huge(ctx, ops):
+    """Well-formed arithmetic over constants / bounds of magnitude 2^1100: the type must be inferred (no exception) and sound."""
+    from unified_planning.exceptions import UPTypeError
+
+    env = ctx.fresh_env(hashcons="syntactic")
+    em = env.expression_manager
+    op = ops[ctx.choice("op", len(ops))]
+    kl = HUGE_KINDS[ctx.choice("l", len(HUGE_KINDS))]
+    kr = HUGE_KINDS[ctx.choice("r", len(HUGE_KINDS))]
+    ctx.assume(any(k in ("hb", "H", "-H", "RH") for k in (kl, kr)))
+    l, r = _huge_leaf(env, 0, kl), _huge_leaf(env, 1, kr)
+    skel = f"({kl} {op} {kr})"
+    ctx.note("skeleton", skel)
+    try:
+        e = {"+": em.Plus, "-": em.Minus, "*": em.Times, "/": em.Div}[op](l, r)
+        t = e.type
+    except UPTypeError:
+        ctx.fail("huge:rejected", f"{skel} with H = 2^1100 is rejected by the type checker")
+    except (OverflowError, ValueError) as exc:
+        ctx.fail(f"huge:{type(exc).__name__}", f"{skel} with H = 2^1100: the type checker raises {type(exc).__name__}: {exc}")
+    ctx.witness("huge-typed")
+    ctx.forall(lambda: _interval_violation(e, t), None, "unsound-interval:huge", f"{skel}: a value lies outside the inferred type {t}")
+
+
+# ---------------------------------------------------------------------------------------------------------------
 # layer 2: the real walk_div on IEEE-exact proxies
 # ---------------------------------------------------------------------------------------------------------------
 class _P:
@@ -415,6 +461,8 @@ class _P:
         if self.kind == "fp":
             return self.term
         if self.kind == "int" and self.bv is not None:
+            if callable(self.bv):
+                self.bv = self.bv()  # the 64-bit twin is only created when a float conversion really happens
             return z3.fpSignedToFP(z3.RNE(), self.bv, F)
         return z3.fpRealToFP(z3.RNE(), self.real(), F)
 
@@ -701,6 +749,8 @@ def h_divconst(ctx, dividend, mag_bits=53, small=None, real_dividend=False):
     import unified_planning as up
     from unified_planning.exceptions import UPTypeError
 
+    if isinstance(dividend, list):  # several variants in one shard: [[dividend, real_dividend], ...]
+        dividend, real_dividend = dividend[ctx.choice("variant", len(dividend))]
     env = ctx.fresh_env(hashcons="syntactic")
     em, tm = env.expression_manager, env.type_manager
 
@@ -737,13 +787,17 @@ def h_divconst(ctx, dividend, mag_bits=53, small=None, real_dividend=False):
     bound = (small - 1) if small else 2 ** mag_bits
 
     def sym_int(name):
-        bv = z3.BitVec(name, 64)
-        it = z3.BV2Int(bv, is_signed=True)
-        eng.pc.append(z3.And(bv >= -bound, bv <= bound))  # signed comparisons on BitVecRef
-        return _P(eng, "int", it, bv), bv
+        it = z3.Int(name)
+        eng.pc.append(z3.And(it >= -bound, it <= bound))
+
+        def twin():  # 64-bit signed twin for int -> float conversion (only if the code under test divides floats)
+            bv = z3.BitVec(name + "!bv", 64)
+            eng.pc.append(z3.BV2Int(bv, is_signed=True) == it)
+            return bv
+
+        return _P(eng, "int", it, twin), it
 
     (r, rbv) = sym_int("r")
-    eng.pc.append(rbv != 0)
     eng.assume_fact(r.term != 0)
     qv = {"r": r.term}
     lo = hi = None
@@ -939,8 +993,8 @@ def shards(tier, seed):
 
     def div(name, **kw):
         # FloatingPoint queries take 10-40 s of CPU each on the unrepaired tree (pure LRA and instant once walk_div is exact)
-        out.append(dict(name="div-" + name, fn="h_divconst", kwargs=kw, budget=400 if quick else 1500, engine="direct",
-                        query_timeout=300 if quick else 900))
+        out.append(dict(name="div-" + name, fn="h_divconst", kwargs=kw, budget=600 if quick else 1500, engine="direct",
+                        query_timeout=600 if quick else 900))
 
     PAIRS = [[a, b] for a in "+-*" for b in "+-*"]          # [top, inner] in pre-order
     PAIRS4 = [[a, b] for a in "+-*/" for b in "+-*/"]
@@ -950,7 +1004,7 @@ def shards(tier, seed):
     # ---- layer 1, symbolic bounds and constants: every 1- and 3-node tree over every leaf-kind combination (both tiers)
     sym("leaf", "leaf", _sym_combos(1, SYM_KINDS), [[]])
     sym("bin-plus-minus", "bin", c2, [["+"], ["-"]])
-    for nm, firsts in (("Ib", ["Ib"]), ("half", ["Il", "Iu"]), ("In-c-q", ["In", "c", "q"]), ("Rb", ["Rb"])):
+    for nm, firsts in (("Ib", ["Ib"]), ("half-In-c-q", ["Il", "Iu", "In", "c", "q"]), ("Rb", ["Rb"])):
         sym(f"bin-times-{nm}", "bin", [c for c in c2 if c[0] in firsts], [["*"]])
     INTK = ["Ib", "Il", "Iu", "In", "c"]
     sym("bin-div", "bin", [[a, b] for a in INTK for b in ["Ibn", "Il", "Iu", "In", "cd"]], [["/"]])
@@ -969,19 +1023,21 @@ def shards(tier, seed):
         sym("nary4-plus", "nary4", _sym_combos(4, ["Ib", "c"]), [["+"]])
         sym("nary4-times", "nary4", [["Ib", "c", "c", "Ib"], ["c", "Ib", "Ib", "c"], ["Ib", "Ib", "c", "c"]], [["*"]])
         conc("nary", "nary3", POOL7 + ["k0"], [["+"], ["*"]])
+        # exact (rational) walk_div: every query is linear real arithmetic and instant; a float-based walk_div makes each of
+        # these a FloatingPoint query of 10-60 s CPU
         div("const-small", dividend="const", small=1000)
         div("const-2^53", dividend="const")
-        div("lower-small", dividend="lower", small=1000)
+        div("intervals-2^53", dividend=[["interval", False], ["lower", False], ["upper", False], ["interval", True], ["const", True]])
     else:
         I4 = ["Ib", "Il", "Iu", "c"]
-        for p in PAIRS:
-            for shape in ("left", "right"):
+        for shape in ("left", "right"):
+            for p in PAIRS:
                 sym(f"{shape}-{NM[p[0]]}-{NM[p[1]]}-int", shape, _sym_combos(3, I4 + ["In"]), [p])
-                sym(f"{shape}-{NM[p[0]]}-{NM[p[1]]}-real", shape, [c for c in _sym_combos(3, ["Ib", "Rb", "c", "q"]) if "Rb" in c or "q" in c], [p])
-        for p in PAIRS4:
-            if "/" in p:
-                for shape in ("left", "right"):
-                    sym(f"{shape}-{NM[p[0]]}-{NM[p[1]]}-int", shape, _sym_combos(3, ["Ibn", "Iu", "cd"]), [p])
+            for top in "+-*":
+                sym(f"{shape}-top-{NM[top]}-real", shape, [c for c in _sym_combos(3, ["Ib", "Rb", "c", "q"]) if "Rb" in c or "q" in c],
+                    [p for p in PAIRS if p[0] == top])
+            sym(f"{shape}-top-div-int", shape, _sym_combos(3, ["Ibn", "Iu", "cd"]), [p for p in PAIRS4 if p[0] == "/"])
+            sym(f"{shape}-inner-div-int", shape, _sym_combos(3, ["Ibn", "Iu", "cd"]), [p for p in PAIRS4 if p[0] != "/" and p[1] == "/"])
         sym("bin-halves", "bin", _sym_combos(2, ["Ib", "c", "Rb", "q"]), [["+"], ["-"], ["*"]], den=2)
         sym("nary3-plus", "nary3", _sym_combos(3, SYM_KINDS), [["+"]])
         for k0 in I4:
@@ -1006,6 +1062,8 @@ def shards(tier, seed):
             div(f"{d}-small", dividend=d, small=1000)
         div("real-interval-2^53", dividend="interval", real_dividend=True)
         div("real-const-2^53", dividend="const", real_dividend=True)
+    # ---- layer 1c: magnitudes beyond the float range
+    out.append(dict(name="huge", fn="h_huge", kwargs=dict(ops=["+", "-", "*", "/"]), budget=B, engine="direct", query_timeout=20))
     # ---- layer 1b and layer 3
     out.append(dict(name="exact", fn="h_exact", kwargs={}, budget=B, per_path=PP))
     out.append(dict(name="symmetry", fn="h_symmetry", kwargs={}, budget=B, engine="direct"))
